@@ -1,0 +1,35 @@
+//go:build verif
+
+package litestream
+
+import (
+	"io"
+	"os"
+)
+
+// Exported wrappers used only by the verification harness (build tag "verif"),
+// Stmts layer (C14): fault injection on litestream's own LTX staging files
+// through the existing, unexported openLTXFile hook. Adds no behaviour.
+
+// VerifStagingFile is what the staging hook returns (same methods as ltxStagingFile).
+type VerifStagingFile interface {
+	io.Writer
+	Sync() error
+	Close() error
+}
+
+// VerifSetOpenLTXFile replaces the function that opens LTX staging files; nil restores the default.
+func (db *DB) VerifSetOpenLTXFile(f func(name string, flag int, perm os.FileMode) (VerifStagingFile, error)) {
+	if f == nil {
+		db.openLTXFile = defaultOpenLTXFile
+		return
+	}
+	db.openLTXFile = func(name string, flag int, perm os.FileMode) (ltxStagingFile, error) {
+		return f(name, flag, perm)
+	}
+}
+
+// VerifDefaultOpenLTXFile is the default staging-file opener.
+func VerifDefaultOpenLTXFile(name string, flag int, perm os.FileMode) (VerifStagingFile, error) {
+	return defaultOpenLTXFile(name, flag, perm)
+}
